@@ -55,9 +55,14 @@ class LoginPage(HTMLHandlerBase):
 
     def post(self) -> flask.Response:
         data: JsonObject = flask.request.json
+        if not isinstance(data, dict):
+            return jsonify_no_content(400)
         username: str | None = data.get("username", None)
         password: str | None = data.get("password", None)
-        rememberme: bool = data.get("rememberme", False)
+        rememberme: bool = bool(data.get("rememberme", False))
+        if not isinstance(username, str) or not isinstance(password, str):
+            # treated like any other wrong credentials
+            username = password = ''
         user: User | None = User.get_one(username=username)
         if not user:
             user = User.get_one(email=username)
